@@ -1274,3 +1274,87 @@ func ruleCompiledSchemaFollowsDocument(r *Run) {
 	}
 	r.check(n >= 1, "neuronjson:metadata-deletes", fmt.Sprintf("%d deletes from the metadata cache", n), "none found: rule needs review", "-")
 }
+
+// ---------------------------------------------------------------------------------------------
+// R16.21 — a read option is honoured on both paths: no neuronjson function ignores its field
+// selection (a parameter of type map[string]struct{}) or its Fields display option — the parameter is
+// used in the function or in a closure it creates.
+
+func init() {
+	register(ruleDef{ID: "R16.21", Prop: "C16", Tier: "quick", Floor: 8,
+		Title: "a read option is honoured on the store path as on the in-memory path: every neuronjson function that takes the field selection (map[string]struct{}) or the Fields display option uses it — directly or in a closure it creates; a reader that ignores the option answers differently from its sibling",
+		Fn:    ruleReadOptionsUsed})
+}
+
+func ruleReadOptionsUsed(r *Run) {
+	w := r.W
+	n := 0
+	used := func(p ssa.Value) bool {
+		refs := p.Referrers()
+		if refs == nil {
+			return false
+		}
+		for _, ref := range *refs {
+			switch x := ref.(type) {
+			case *ssa.DebugRef:
+			case *ssa.MakeClosure:
+				// captured: used when the closure reads it
+				if cl, ok := x.Fn.(*ssa.Function); ok {
+					for i, b := range x.Bindings {
+						if b == p && i < len(cl.FreeVars) {
+							if rr := cl.FreeVars[i].Referrers(); rr != nil && len(*rr) > 0 {
+								return true
+							}
+						}
+					}
+				}
+			case *ssa.Store:
+				// spilled to a cell that a closure captures by reference
+				if al, ok := x.Addr.(*ssa.Alloc); ok && x.Val == p {
+					for _, r2 := range *al.Referrers() {
+						switch y := r2.(type) {
+						case *ssa.UnOp:
+							return true
+						case *ssa.MakeClosure:
+							if cl, ok := y.Fn.(*ssa.Function); ok {
+								for i, b := range y.Bindings {
+									if b == ssa.Value(al) && i < len(cl.FreeVars) {
+										if rr := cl.FreeVars[i].Referrers(); rr != nil && len(*rr) > 0 {
+											return true
+										}
+									}
+								}
+							}
+						}
+					}
+				} else {
+					return true
+				}
+			default:
+				return true
+			}
+		}
+		return false
+	}
+	for _, f := range w.RepoFuncs {
+		if relPkg(pkgPathOf(f)) != "datatype/neuronjson" || len(f.Blocks) == 0 || f.Parent() != nil || strings.HasSuffix(w.fposFile(f), "_test.go") {
+			continue
+		}
+		for _, p := range f.Params {
+			ts := p.Type().String()
+			isSel := ts == "map[string]struct{}"
+			isShow := strings.HasSuffix(ts, "neuronjson.Fields")
+			if !isSel && !isShow {
+				continue
+			}
+			n++
+			what := "field selection"
+			if isShow {
+				what = "Fields display option"
+			}
+			r.check(used(p), fname(f)+":"+p.Name()+":used", "the "+what+" is used",
+				"the function takes the "+what+" of the request and never looks at it: this reader returns whole records (or the default display) where its sibling on the other path applies the option, so a version read through the store answers differently from the same content read through the in-memory head", w.fpos(f))
+		}
+	}
+	r.check(n >= 8, "neuronjson:read-option-parameters", fmt.Sprintf("%d option parameters", n), "fewer than confirmed by reading: rule needs review", "-")
+}
